@@ -59,10 +59,11 @@ class Path:
     phi_next: Dict[str, ast.AST] = field(default_factory=dict)  # loop-carried name -> value after one iteration, over the symbol itself
     loopstack: List[Tuple[str, ...]] = field(default_factory=list)  # target names of the enclosing loops, innermost last
     loopsrc: List[ast.AST] = field(default_factory=list)  # their iterables
+    alias: Dict[str, Tuple[str, ...]] = field(default_factory=dict)  # local name -> names bound to the same mutable container
 
     def fork(self) -> "Path":
         p = Path(dict(self.env), list(self.guards), list(self.events), dict(self.loopvars),
-                 self.ret, self.ret_node, self.loop, dict(self.assigned), dict(self.attrs), dict(self.phi), dict(self.phi_next), list(self.loopstack), list(self.loopsrc))
+                 self.ret, self.ret_node, self.loop, dict(self.assigned), dict(self.attrs), dict(self.phi), dict(self.phi_next), list(self.loopstack), list(self.loopsrc), dict(self.alias))
         return p
 
 
@@ -299,6 +300,8 @@ class Walker:
                     val._iter_of = p.loopstack[-1]
                     val._iter_src = p.loopsrc[-1]
                 p.env[target.value.id] = ast.Dict(keys=list(cur.keys) + [subst(target.slice, p.env)], values=list(cur.values) + [val])
+                for other in p.alias.get(target.value.id, ()):
+                    p.env[other] = p.env[target.value.id]
             elif self.track_stores and isinstance(target.value, ast.Name) and target.value.id in p.env:
                 # x[idx] = v  ==>  x := __store__(x, idx, v): later uses of x depend on v
                 old_v = p.env[target.value.id]
@@ -487,6 +490,8 @@ class Walker:
                 p.env[name] = ast.List(elts=list(cur.elts) + [ast.Starred(value=arg, ctx=ast.Load())], ctx=ast.Load())
         elif meth == "insert" and len(call.args) == 2 and isinstance(call.args[0], ast.Constant) and call.args[0].value == 0:
             p.env[name] = ast.List(elts=[subst(call.args[1], p.env)] + list(cur.elts), ctx=ast.Load())
+        for other in p.alias.get(name, ()):
+            p.env[other] = p.env[name]
 
     def record_calls(self, p: Path, expr: ast.AST, node):
         """Every call evaluated by a statement is an event (expanded)."""
@@ -500,6 +505,19 @@ class Walker:
             self.ev(p, "eval", s, None, v)
             for t in s.targets:
                 self.assign(p, t, v, s)
+            names = [t.id for t in s.targets if isinstance(t, ast.Name)]
+            if isinstance(s.value, ast.Name) and isinstance(p.env.get(s.value.id), (ast.List, ast.Dict)) and s.value.id not in names:
+                names.append(s.value.id)  # b = a: one container, two names
+            if len(names) > 1 and isinstance(v, (ast.List, ast.Dict)):
+                group = tuple(sorted(set(names) | {m for n in names for m in p.alias.get(n, ())}))
+                for n in group:
+                    p.alias[n] = group
+            else:
+                for n in names:
+                    if n in p.alias:  # re-bound: leaves its group
+                        g = tuple(x for x in p.alias.pop(n) if x != n)
+                        for x in g:
+                            p.alias[x] = g
             return [(p, FALL)]
         if isinstance(s, ast.AnnAssign):
             if s.value is not None:
